@@ -232,6 +232,13 @@ def entries_run(tier='quick'):
     return _pack('gvc.entries', [r], t0, samples=[dict(obligation='every public parser entry calls init() first', entries_checked=r['checked'])])
 
 
+def stateless_run(tier='quick'):
+    from . import analyses as A
+    t0 = time.time()
+    r = A.stateless_check()
+    return _pack('gvc.stateless', [r], t0, samples=[dict(obligation='no static/thread_local/lazy/atomic state outside the parser crate', files_checked=r['checked'])])
+
+
 def pptotal_run(tier='quick'):
     from . import analyses as A
     t0 = time.time()
